@@ -24,3 +24,6 @@ Definition bresult_eqb (a b : bresult) : bool :=
   | ParseError, ParseError => true
   | _, _ => false
   end.
+
+Definition optnat_eqb (a b : option nat) : bool :=
+  match a, b with Some x, Some y => Nat.eqb x y | None, None => true | _, _ => false end.
